@@ -14,6 +14,7 @@ import (
 )
 
 type FuncResult struct {
+	AxLo, AxHi int // lines [AxLo,AxHi) of Facts are the global axioms of the spec files
 	Name     string
 	Obls     []*Obligation
 	Notes    []string
@@ -40,7 +41,9 @@ func (e *Engine) verifyFunc(name string) (*FuncResult, error) {
 	r.topFrame = fr
 	st := newState()
 	// global axioms
+	axLo := r.facts.Len()
 	r.assertAxioms()
+	axHi := r.facts.Len()
 	// parameters
 	var args []Val
 	for _, p := range fn.Params {
@@ -111,7 +114,7 @@ func (e *Engine) verifyFunc(name string) (*FuncResult, error) {
 			}
 		}
 	}
-	res := &FuncResult{Name: name, Obls: r.obls, GenTime: time.Since(t0).Seconds(), Facts: r.facts.lines, RunNames: r.names, Declared: r.facts.declared}
+	res := &FuncResult{AxLo: axLo, AxHi: axHi, Name: name, Obls: r.obls, GenTime: time.Since(t0).Seconds(), Facts: r.facts.lines, RunNames: r.names, Declared: r.facts.declared}
 	res.Notes = sortedKeys(r.notes)
 	res.Assumes = sortedKeys(r.assumes)
 	res.Specs = sortedKeys(r.usedSpecs)
@@ -134,6 +137,118 @@ func (r *Run) assertAxioms() {
 		}
 		r.facts.Assert(v.S)
 	}
+}
+
+var specSymbols = map[string]bool{}
+
+// smtTokens lists the symbols occurring in an SMT-LIB line.
+func smtTokens(l string, out map[string]bool) {
+	i := 0
+	for i < len(l) {
+		c := l[i]
+		switch {
+		case c == '|':
+			j := strings.IndexByte(l[i+1:], '|')
+			if j < 0 {
+				return
+			}
+			out[l[i:i+j+2]] = true
+			i += j + 2
+		case c == '(' || c == ')' || c == ' ' || c == '\t':
+			i++
+		case c == '"':
+			j := strings.IndexByte(l[i+1:], '"')
+			if j < 0 {
+				return
+			}
+			i += j + 2
+		default:
+			j := i
+			for j < len(l) && l[j] != '(' && l[j] != ')' && l[j] != ' ' {
+				j++
+			}
+			out[l[i:j]] = true
+			i = j
+		}
+	}
+}
+
+// relevantFacts drops the global axioms that share no uninterpreted symbol (transitively through
+// other axioms) with the rest of the query. Dropping hypotheses is always sound for a proof; it
+// keeps queries small and solver behaviour independent of unrelated spec files.
+func relevantFacts(facts []string, axLo, axHi int, extra ...string) []string {
+	if axHi > len(facts) {
+		axHi = len(facts)
+	}
+	if axLo >= axHi {
+		return facts
+	}
+	// relevance is carried by the functions the spec files declare, not by the engine's own
+	// vocabulary (type tags, boxing, heap roots), which occurs in every query
+	declared := specSymbols
+	syms := map[string]bool{}
+	for i, l := range facts {
+		if i >= axLo && i < axHi && strings.HasPrefix(l, "(assert") {
+			continue
+		}
+		if strings.HasPrefix(l, "(declare-") {
+			continue
+		}
+		smtTokens(l, syms)
+	}
+	for _, l := range extra {
+		smtTokens(l, syms)
+	}
+	type ax struct {
+		idx  int
+		syms []string
+	}
+	var axs []ax
+	for i := axLo; i < axHi; i++ {
+		if !strings.HasPrefix(facts[i], "(assert") {
+			continue
+		}
+		t := map[string]bool{}
+		smtTokens(facts[i], t)
+		var ss []string
+		for s := range t {
+			if declared[s] {
+				ss = append(ss, s)
+			}
+		}
+		axs = append(axs, ax{i, ss})
+	}
+	keep := map[int]bool{}
+	for changed := true; changed; {
+		changed = false
+		for _, a := range axs {
+			if keep[a.idx] {
+				continue
+			}
+			hit := len(a.syms) == 0
+			for _, s := range a.syms {
+				if syms[s] {
+					hit = true
+					break
+				}
+			}
+			if hit {
+				keep[a.idx] = true
+				changed = true
+				for _, s := range a.syms {
+					syms[s] = true
+				}
+			}
+		}
+	}
+	out := make([]string, 0, len(facts))
+	for i, l := range facts {
+		if i >= axLo && i < axHi && strings.HasPrefix(l, "(assert") && !keep[i] {
+			continue
+		}
+		out = append(out, l)
+	}
+	return out
 }
 
 // solveAll discharges obligations in parallel.
@@ -169,7 +284,8 @@ func solveAll(workDir string, frs []*FuncResult, timeoutS int, jobs int) {
 				}
 				file := filepath.Join(workDir, fmt.Sprintf("o%04d.smt2", j.id))
 				o.File = file
-				writeQuery(file, j.fr.Facts[:o.NFacts], "(assert "+o.Pc+")", "(assert (not "+o.Goal+"))", "(check-sat)")
+				qfacts := relevantFacts(j.fr.Facts[:o.NFacts], j.fr.AxLo, j.fr.AxHi, o.Pc, o.Goal)
+				writeQuery(file, qfacts, "(assert "+o.Pc+")", "(assert (not "+o.Goal+"))", "(check-sat)")
 				var res SolverResult
 				if strings.HasSuffix(o.Name, "!finding") || o.Kind == "vacuity" {
 					// "is the known finding still there?": a quick look is enough, no answer means still there
@@ -186,7 +302,7 @@ func solveAll(workDir string, frs []*FuncResult, timeoutS int, jobs int) {
 								all = append(all, l)
 							}
 						}
-						all = append(all, j.fr.Facts[:o.NFacts]...)
+						all = append(all, qfacts...)
 						gfile := strings.TrimSuffix(file, ".smt2") + ".ground.smt2"
 						tryGround := func(assume map[string]bool) SolverResult {
 							var r SolverResult
@@ -219,7 +335,7 @@ func solveAll(workDir string, frs []*FuncResult, timeoutS int, jobs int) {
 						if res.Status == "sat" {
 							// case split on the conditions of state merges (ite), at most two of them:
 							// every case must be refuted
-							conds := iteConditions(j.fr.Facts[:o.NFacts])
+							conds := iteConditions(qfacts)
 							for k := 1; k <= 2 && k <= len(conds) && res.Status != "unsat"; k++ {
 								allUnsat := true
 								var worst SolverResult
@@ -275,7 +391,7 @@ func solveAll(workDir string, frs []*FuncResult, timeoutS int, jobs int) {
 				if res.Status != "unsat" && res.Status != "sat" && o.Kind != "vacuity" && !strings.HasSuffix(o.Name, "!finding") {
 					// candidate counterexample: drop the quantified facts (weaker hypotheses) and ask for a model
 					var qf []string
-					for _, l := range j.fr.Facts[:o.NFacts] {
+					for _, l := range qfacts {
 						if !strings.Contains(l, "(forall ") && !strings.Contains(l, "(exists ") {
 							qf = append(qf, l)
 						}
@@ -289,7 +405,7 @@ func solveAll(workDir string, frs []*FuncResult, timeoutS int, jobs int) {
 				}
 				if res.Status == "sat" {
 					// rerun with model
-					writeQuery(file, j.fr.Facts[:o.NFacts], "(assert "+o.Pc+")", "(assert (not "+o.Goal+"))", "(check-sat)", "(get-model)")
+					writeQuery(file, qfacts, "(assert "+o.Pc+")", "(assert (not "+o.Goal+"))", "(check-sat)", "(get-model)")
 					r2 := runSolver(res.Solver, file, timeoutS)
 					if r2.Status == "sat" {
 						res.Model = r2.Model
